@@ -114,11 +114,18 @@ static std::string doReader(const std::vector<std::string>& a) {
                 long n = 0;
                 uint64_t h = 0;
                 XMLCh last[4] = {0, 0, 0, 0};
-                while (lim < 0 || n < lim) {
-                    if (!rd->getNextChar(ch)) break;
-                    h = hstep(h, ch);
-                    last[n & 3] = ch;
-                    n++;
+                try {
+                    while (lim < 0 || n < lim) {
+                        if (!rd->getNextChar(ch)) break;
+                        h = hstep(h, ch);
+                        last[n & 3] = ch;
+                        n++;
+                    }
+                } catch (const XMLException&) {
+                    // report what was delivered before the exception, then the exception
+                    snprintf(b, sizeof b, "G:%ld:%llu ", n, (unsigned long long)h);
+                    out += b;
+                    throw;
                 }
                 snprintf(b, sizeof b, "G:%ld:%llu", n, (unsigned long long)h);
                 out += b;
